@@ -269,6 +269,33 @@ def run(db, tier):
     emits = any(t.get("f", "").endswith("::emit") for g in db.with_closures(h) for _, t in g.calls())
     rep.check(emits, "R-FUNNEL", "redefinition-check|emits", h.loc, "a redefinition is emitted as an error", "add_to_rib_with_redefinition_check no longer emits on redefinition")
 
+    # names are looked up (by spelling) only by the resolver: everything after resolution goes through the Resolutions table
+    lookups = []
+    for g in db.fns.values():
+        if g.gen:
+            continue
+        for bi, t in g.calls():
+            if (t.get("f") or "") in ("resolve::rib::Rib::get", "resolve::rib::Rib::get_mut") or (t.get("f") or "").endswith("RibStacks::resolve"):
+                lookups.append((g, t))
+    rep.floor("rib lookup call sites", len(lookups), 1)
+    for g, t in lookups:
+        root = g.parent or g.id
+        inside = root.startswith("resolve::") or root.startswith("<resolve::")
+        rep.check(inside, "R-FUNNEL", "rib lookup|%s" % root, "%s:%d" % (g.file, t["ln"]), "lookup by spelling happens inside the resolver",
+                  "%s looks a name up in a rib by its spelling, outside name resolution: a local or constant spelled like a register alias is taken for the "
+                  "register, whatever the identifier was resolved to" % root)
+
+    # declarations are rejected only for a clash in their own rib: the statement/block/item visitors raise no error of their own
+    for nm in ("visit_stmt", "visit_block", "visit_item"):
+        g = db.fn(VIS + nm)
+        rep.fn(g)
+        em = [t["ln"] for gg in db.with_closures(g) for _, t in gg.calls()
+              if (t.get("f") or "").endswith("::emit") or (t.get("f") or "").endswith("Diagnostic::error")]
+        rep.check(not em, "R-FUNNEL", "%s|rejects only through the redefinition check" % nm, g.loc,
+                  "no diagnostic is raised here; a declaration can only be refused by add_to_rib_with_redefinition_check (same rib)",
+                  "%s raises a diagnostic of its own (line %s): a declaration can be rejected for names that are not in its own block "
+                  "(shadowing an outer declaration or a parameter is legal)" % (nm, em))
+
     # ---------------- R-ALIAS-LANG
     # the loop header of the rib walk
     headers = [bi for bi, t in r.calls() if t.get("f", "").endswith("Iterator::next")]
